@@ -13,13 +13,14 @@ CONSTANTS NEPs,       \* set of endpoint counts, e.g. {2, 3}
           Placements, \* "all": every endpoint lists m1; "split": e1 lists m1, the others m2
           ReqModels,  \* model names requests may ask for ("mx" is listed nowhere)
           EpTypes,    \* endpoint type of the whole stack: "openai-compatible" | "vllm" (native Anthropic support)
-          BootKinds   \* per endpoint at boot: "up" | "sick" (health 503) | "dead" (connection refused)
+          BootKinds,  \* per endpoint at boot: "up" | "sick" (health 503) | "dead" (connection refused)
+          Twins       \* may all endpoints carry the same configured name (a subset of BOOLEAN)
 VARIABLE scn
 EPS == {[i \in 1..n |-> "e" \o ToString(i)] : n \in NEPs}
 Range(s) == {s[i] : i \in 1..Len(s)}
 Init == \E eps \in EPS : \E en \in Engines : \E lb \in Balancers : \E fr \in Framings :
-        \E pl \in Placements : \E bt \in [Range(eps) -> BootKinds] : \E ty \in EpTypes :
-           scn = [engine |-> en, lb |-> lb, framing |-> fr, eps |-> eps, placement |-> pl, boot |-> bt, eptype |-> ty, steps |-> <<>>]
+        \E pl \in Placements : \E bt \in [Range(eps) -> BootKinds] : \E ty \in EpTypes : \E tw \in Twins :
+           scn = [engine |-> en, lb |-> lb, framing |-> fr, eps |-> eps, placement |-> pl, boot |-> bt, eptype |-> ty, twins |-> tw, steps |-> <<>>]
 Step(op) == \E f \in [Range(scn.eps) -> GKinds] : \E rt \in Routes : \E m \in ReqModels :
               /\ (Pattern = 4 /\ Len(scn.steps) > 0) =>
                      (f = scn.steps[1].plans /\ rt = scn.steps[1].route /\ m = scn.steps[1].model)
